@@ -180,6 +180,18 @@ pub async fn transaction(cx: &mut Context<'_>, tx_id: &str) -> Result<Json, KipE
             format!("this Nexus has no transaction {tx_id:?}"),
         )
     })?;
+    // The change list names element ids, exactly as `HISTORY` and `CHANGES`
+    // do, so it goes through the same filter: a caller whose read authority
+    // is narrower than the Space sees the changes it may read, and a
+    // transaction with none of those answers as one that never happened.
+    let mut rows = vec![row];
+    visible_changes(cx, &mut rows).await;
+    let row = rows.into_iter().next().ok_or_else(|| {
+        KipError::new(
+            KipErrorCode::TransactionUnknown,
+            format!("this Nexus has no transaction {tx_id:?}"),
+        )
+    })?;
     Ok(entry(&row, None))
 }
 
